@@ -28,6 +28,10 @@ static const CheckDef defs[] = {
         { "C14", "desc", 12000, 200000, 100, 1500, "exploration", k_state_rule },
         { "C18", "cc", 12000, 200000, 100, 1500, "exploration", k_state_rule },
         { "C17", "indep", 6000, 100000, 100, 1500, "exploration", k_state_rule },
+        { "C01", "ref_cipher", 8000, 200000, 100, 1500, "exploration", k_state_rule },
+        { "C02", "ref_hash", 8000, 200000, 100, 1500, "exploration", k_state_rule },
+        { "C03", "ref_aead", 8000, 200000, 100, 1500, "exploration", k_state_rule },
+        { "C06", "ref_chain", 8000, 200000, 100, 1500, "exploration", k_state_rule },
         { "C08", "xvar", 4000, 80000, 100, 1500, "exploration", k_state_rule },
         { "C12", "reject", 20000, 400000, 100, 1500, "fault_enumeration", k_state_rule },
         { "C15", "reinit", 8000, 150000, 100, 1500, "exploration", k_state_rule },
